@@ -238,6 +238,11 @@ def build(cfg, values=None):
                 pos += 3 * p.m * p.n
                 obs.append(('assembly-range-end[%d]' % q, Sym.lift(p.row_end), Sym.lift(pos)))
             if which in ('k0', 'kG0', 'kM'):
+                for h in cfg.get('history', ()):
+                    if h == 'k0_conn':
+                        asm.get_k0_conn()
+                    else:
+                        getattr(asm, 'calc_' + h)(silent=True)
                 K = getattr(asm, 'calc_' + which)(silent=True).todict()
                 tot = 0.
                 for p in panels:
@@ -257,7 +262,10 @@ def build(cfg, values=None):
                 for p in panels:
                     p.nx = p.ny = 1
                     p.calc_k0(silent=True)
-                kc = asm.get_k0_conn()
+                # call history on the SAME assembly object before the call under test (the connection matrix is cached)
+                for h in cfg.get('history', ()):
+                    getattr(asm, 'calc_' + h)(silent=True)
+                kc = PanelAssembly(panels, conn).get_k0_conn()
                 if which == 'fint':
                     f = asm.calc_fint(c, silent=True)
                     exp = kc.dot(c)
@@ -309,6 +317,10 @@ def configs(tier, seed):
         out.append({'variant': 'assembly-sum', 'which': which, 'panels': [(2, 1), (1, 2), (1, 1)], 'm': 2, 'n': 1, 'group': 'assembly-sum:%s' % which})
     out.append({'variant': 'assembly-sum', 'which': 'fint', 'panels': [(2, 1), (1, 1)], 'm': 2, 'n': 1, 'group': 'assembly-sum:fint', 'timeout_ms': 120000})
     out.append({'variant': 'assembly-sum', 'which': 'kT', 'panels': [(1, 1), (1, 2)], 'm': 1, 'n': 1, 'group': 'assembly-sum:kT', 'timeout_ms': 120000})
+    # the same sums after other calls on the same assembly object (the connection matrix is cached between calls)
+    out.append({'variant': 'assembly-sum', 'which': 'kT', 'history': ('k0', 'kG0', 'kM'), 'panels': [(1, 3), (1, 1)], 'm': 1, 'n': 1, 'group': 'assembly-sum:kT-after-k0-kG0-kM', 'timeout_ms': 120000})
+    out.append({'variant': 'assembly-sum', 'which': 'fint', 'history': ('k0',), 'panels': [(1, 3), (1, 1)], 'm': 1, 'n': 1, 'group': 'assembly-sum:fint-after-k0', 'timeout_ms': 120000})
+    out.append({'variant': 'assembly-sum', 'which': 'k0', 'history': ('k0_conn', 'k0'), 'panels': [(2, 1), (1, 2), (1, 1)], 'm': 2, 'n': 1, 'group': 'assembly-sum:k0-after-k0_conn-k0'})
     out[0]['canary'] = True
     out[-1]['canary'] = True
     return out
@@ -343,9 +355,38 @@ def main():
     return run.finish()
 
 
+def real_typeerror(cfg):
+    """the same call on the compiled build (floats): PanelAssembly.calc_fint of two joined plates; returns the TypeError text"""
+    if cfg.get('variant') != 'assembly-sum' or cfg.get('which') != 'fint':
+        return None
+    from compmech.panel import Panel
+    from compmech.panel.assembly import PanelAssembly
+    ps = []
+    for k, (m, n) in enumerate(cfg['panels']):
+        p = Panel()
+        p.model = 'plate_clt_donnell_bardell'
+        p.a, p.b, p.m, p.n = 1., 0.5, m + 3, n + 3
+        p.stack, p.plyt, p.laminaprop = [0, 90, 0], 1e-3, (142.5e9, 8.7e9, 0.28, 5.1e9, 5.1e9, 5.1e9)
+        ps.append(p)
+    conn = [dict(p1=ps[k], p2=ps[k + 1], func='SSycte', ycte1=ps[k].b, ycte2=0.) for k in range(len(ps) - 1)]
+    asm = PanelAssembly(ps, conn)
+    c = np.linspace(1e-4, 2e-4, asm.get_size())
+    try:
+        for h in cfg.get('history', ()):
+            getattr(asm, 'calc_' + h)(silent=True)
+        asm.calc_fint(c, silent=True)
+    except TypeError as e:
+        return 'TypeError: %s' % e
+    return None
+
+
 def replay(path):
     d = json.load(open(path))
     cfg = d['replay']['cfg']
+    if 'compiled_build' in d['replay']:
+        r = real_typeerror(cfg)
+        print('replay %s on the compiled build: %s' % (cfg, r))
+        return 1 if r else 0
     bad, info = kprop.concrete_replay(build, cfg, d['replay'].get('inputs', {}))
     print('replay %s: %d differing entries' % (cfg, len(bad)))
     for b in bad[:10]:
